@@ -2685,8 +2685,9 @@ class NetCDFRead(IORead):
         # coordinate variables must all span the same single
         # dimension; the node count variable (or, in its absence, the
         # node coordinate variables) must span a single dimension of
-        # the parent variable; and the part node count variable must
-        # span a single dimension.
+        # the parent variable; the part node count variable must span
+        # a single dimension; and the interior ring variable must
+        # span the same dimension as the part node count variable.
         parent_dimensions = tuple(g["variable_dimensions"][parent_ncvar])
         domain_dimensions = g["variable_attributes"][parent_ncvar].get(
             "dimensions"
@@ -2719,6 +2720,12 @@ class NetCDFRead(IORead):
                 parsed_part_node_count,
                 "Part node count variable",
             ),
+            (
+                "interior_ring",
+                interior_ring,
+                parsed_interior_ring,
+                "Interior ring variable",
+            ),
         ):
             for ncvar in ncvars:
                 dimensions = g["variable_dimensions"][ncvar]
@@ -2731,6 +2738,13 @@ class NetCDFRead(IORead):
                             continue
                     elif attr == "node_count":
                         if dimensions[0] in parent_dimensions:
+                            continue
+                    elif attr == "interior_ring":
+                        # Spans the dimension of the part node count
+                        # variable
+                        if dimensions == g["variable_dimensions"].get(
+                            parsed_part_node_count[0]
+                        ):
                             continue
                     else:
                         continue
